@@ -47,6 +47,8 @@ type Zoo struct {
 	NewWriter func(w io.Writer, max int, codec int) (Writer, error)
 	NewReader func(r io.ReadSeeker) (Reader, error)
 	Fields    func() []FieldInfo
+	// Poison puts garbage-filled buffers into the generated package's own buffer pool
+	Poison func(n, size int, fill byte)
 }
 
 var Registry = map[string]Zoo{}
